@@ -157,7 +157,8 @@ HEADERS = [
 OPTS = [[True, False], [False, False], [True, True], [False, True]]
 # (write mode, read mode)
 IO_MODES = [('stringio', 'stringio'), ('path', 'path'), ('fileobj', 'fileobj'),
-            ('stdout', 'stdin'), ('path-explicit-format', 'path')]
+            ('stdout', 'stdin'), ('path-explicit-format', 'path'),
+            ('path-named-opb', 'path'), ('path-named-dot-tex', 'path')]
 
 NAMESETS = [
     [['v', 'x'], ['v', 'y']],
@@ -530,6 +531,13 @@ def write_formula(F, wmode, export_header, export_varnames, tmp):
         else:
             path = tmp.path('.opb')     # the explicit format wins over the extension
             F.to_file(path, fileformat='dimacs', **kw)
+        with open(path, 'r', encoding='utf-8', newline='') as f:
+            return f.read(), path
+    if wmode in ('path-named-opb', 'path-named-dot-tex'):
+        # names WITHOUT an extension that spell one: 'opb', '.tex'
+        tmp.path('.cnf')
+        path = os.path.join(tmp.dir, 'opb' if wmode == 'path-named-opb' else '.tex')
+        F.to_file(path, **kw)
         with open(path, 'r', encoding='utf-8', newline='') as f:
             return f.read(), path
     if wmode == 'fileobj':
